@@ -307,6 +307,10 @@ pub fn isolated<R: serde::Serialize + serde::de::DeserializeOwned + Send>(f: imp
         // child (it goes with its parent: see the shard start-up in main.rs)
         unsafe { libc::prctl(libc::PR_SET_PDEATHSIG, libc::SIGKILL) };
         unsafe { libc::close(fds[0]) };
+        // a subject that spins without making a system call never comes back to the simulation:
+        // one execution gets 30 s of CPU time (they take milliseconds), then SIGXCPU ends it
+        let cpu = libc::rlimit { rlim_cur: 30, rlim_max: 40 };
+        unsafe { libc::setrlimit(libc::RLIMIT_CPU, &cpu) };
         // run on a brand-new thread: the forking thread's thread-locals (in
         // particular std's per-thread hash seed, drawn from the real kernel)
         // must not leak into the subject; the new thread draws its seed under
